@@ -91,6 +91,12 @@ class Derivate:
             if knotvector.mult(knot) == knotvector.degree + 1
         )
         newvector = knotvector - nodes
+        degree = knotvector.degree
+        ctrlpoints = [
+            point
+            for i, point in enumerate(ctrlpoints)
+            if knotvector[i + 1 + degree] != knotvector[i + 1]
+        ]
         newcurve = curve.__class__(newvector, ctrlpoints)
         return newcurve
 
